@@ -791,3 +791,12 @@ func (v Val) Ordered() Val {
 	v.Unordered = false
 	return v
 }
+
+// MustParseJSON is ParseJSON for constants.
+func MustParseJSON(s string) Val {
+	v, err := ParseJSON(s)
+	if err != nil {
+		panic("jv: bad JSON constant " + strconv.Quote(s) + ": " + err.Error())
+	}
+	return v
+}
